@@ -22,7 +22,7 @@ def replay(rp):
     if 'argv' not in rp:
         print('replay: nothing to execute:', rp.get('kind'))
         return 1
-    o, d = fuzzcmd.outcome(rp['argv'], limit=120)
+    o, d = fuzzcmd.outcome(rp.get('argv_full', rp['argv']), limit=120)
     bad = o not in ('usage', 'diag', 'report', 'timeout')
     print('replay', ' '.join(rp['argv']), '->', o, d)
     return 1 if bad else 0
@@ -65,6 +65,32 @@ def run(ck):
                 ck.count('pair_' + o)
                 if o not in ('usage', 'diag', 'report', 'timeout'):
                     viol.append(dict(kind='pair', argv=argv, observed='%s %s' % (o, det), field=f['name'], cls=c))
+    # 1a'. every cell once more with both output files requested (a writable place): the writers evaluate the model too;
+    # and every integer-typed field with an integer beyond the range of a double
+    for f in c20table.FIELDS:
+        for c in c20table.CLASSES + ['bigint']:
+            if c == 'bigint':
+                if not f['integer']:
+                    continue
+                a0 = list(f['argv'])
+                x = a0[f['idx']]
+                if '=' in x and x.startswith('--'):
+                    nm_, val = x.split('=', 1); parts = val.split(','); parts[f['pos']] = '9' * 400
+                    a0[f['idx']] = nm_ + '=' + ','.join(parts)
+                else:
+                    parts = x.split(','); parts[f['pos']] = '9' * 400; a0[f['idx']] = ','.join(parts)
+                argv = a0
+            else:
+                argv = c20table.mutated(f, c)
+                if argv is None or c == 'pos':
+                    continue
+                argv = argv + ['--output-basic-input=' + fuzzcmd.OUTPATHS[0], '--output-cmdline=' + fuzzcmd.OUTPATHS[0] + '.cmd']
+            o, det = fuzzcmd.outcome(argv, limit=60 if c != 'bigint' else 8)
+            ck.case(('with-output' if c != 'bigint' else 'bigint', f['name'], c), True)
+            ck.count(('outcell_' if c != 'bigint' else 'bigint_') + o)
+            if o not in ('usage', 'diag', 'report', 'timeout'):
+                viol.append(dict(kind='table+output' if c != 'bigint' else 'bigint', argv=[a if len(a) < 60 else a[:30] + '…(%d characters)' % len(a) for a in argv],
+                                 argv_full=argv, observed='%s %s' % (o, det), field=f['name'], cls=c))
     # 1b. output-file stage, exhaustively: option x path class (and the load combination BASIC cannot express)
     import os
     base = ['-f', '7', '-w', '6,0,0,0,0,0,10,.01', '--excitation-pulse=2']
